@@ -39,6 +39,8 @@ def use_src(u):
         "eq1": f"{{% if {R} == 1 %}}T{{% else %}}F{{% endif %}}", "eqnil": f"{{% if {R} == nil %}}T{{% else %}}F{{% endif %}}",
         "eqfalse": f"{{% if {R} == false %}}T{{% else %}}F{{% endif %}}", "eqempty": f"{{% if {R} == empty %}}T{{% else %}}F{{% endif %}}",
         "contains": f'{{% if {R} contains "z" %}}T{{% else %}}F{{% endif %}}',
+        "eqmissing": f"{{% if {R} == um2.x %}}T{{% else %}}F{{% endif %}}", "nemissing": f"{{% if {R} != um2 %}}T{{% else %}}F{{% endif %}}",
+        "casemissing": f"{{% case {R} %}}{{% when um2 %}}W{{% else %}}E{{% endcase %}}",
         "upcase": f"{{{{ {R} | upcase }}}}", "size": f"{{{{ {R} | size }}}}", "default": f'{{{{ {R} | default: "D" }}}}',
         "join": f'{{{{ {R} | join: "," }}}}', "assign": f"{{% assign z = {R} %}}",
         "ternary": f'{{{{ "T" if {R} else "F" }}}}', "case": f"{{% case {R} %}}{{% when 1 %}}W{{% else %}}E{{% endcase %}}",
@@ -149,7 +151,7 @@ def run(tier: str) -> int:
     cases = r.emitted
     observations, meta = [], []
     for case, (src, out) in zip(cases, par.pmap(replay_A, cases, chunk=64)):
-        ck.case(("A", src), nontrivial=any(u["r"] != "p" for u in case["prog"]))
+        ck.case(("A", src), nontrivial=any(u["r"] != "p" or u["k"].endswith("missing") for u in case["prog"]))
         ck.validated()
         for how, o, why in out:
             observations.append(o)
